@@ -95,7 +95,18 @@ static void udiv_case(void) {
   if (op != 0 && chance(70)) { lp_upolynomial_t* t = lp_upolynomial_add(A, R0); lp_upolynomial_delete(A); A = t; }
 #define UHEAD(nm) sb_begin("udiv", nm); sb_sp(); hp_ring_token(ri); sb_sp(); sb_upoly(A); sb_sp(); sb_upoly(B); sb_arrow()
   switch (op) {
-  case 0: { if (lp_upolynomial_is_zero(A) && 0) break;
+  case 0: {
+    if (chance(30)) {            /* division by an integer constant: lp_upolynomial_div_exact_c */
+      long cl = rnd_in(-6, 6); if (cl == 0 || (ri == 1 && cl % 5 == 0)) cl = 2;
+      lp_integer_t c; lp_integer_construct_from_int(lp_Z, &c, cl);
+      lp_upolynomial_t* Ac = lp_upolynomial_mul_c(Q0, &c);
+      lp_upolynomial_t* Bc = lp_upolynomial_construct_from_long(hp_ring[ri], 0, &cl);
+      sb_begin("udiv", "divexact"); sb_sp(); hp_ring_token(ri); sb_sp(); sb_upoly(Ac); sb_sp(); sb_upoly(Bc); sb_arrow();
+      lp_upolynomial_t* D = lp_upolynomial_div_exact_c(Ac, &c);
+      sb_sp(); sb_upoly(D); sb_emit();
+      lp_upolynomial_delete(D); lp_upolynomial_delete(Ac); lp_upolynomial_delete(Bc); lp_integer_destruct(&c);
+      break;
+    }
     UHEAD("divexact"); lp_upolynomial_t* D = lp_upolynomial_div_exact(A, B); sb_sp(); sb_upoly(D); sb_emit(); lp_upolynomial_delete(D); break; }
   case 1: { if (ri == 0) break;    /* general exact division with remainder needs a field */
     if (lp_upolynomial_degree(A) < lp_upolynomial_degree(B)) break;
